@@ -2099,7 +2099,7 @@ package mcp
 // that blocks on a peer that stopped draining must not stop the connection's single reader, which takes the same
 // mutex to log every message it returns.
 //@ monitor logmu lock loggingConn.mu as s [C04]
-//@   discipline-only
+//@   protects fields(loggingConn.w)
 //@ func (*loggingConn).Write [C04]
 //@   requires s != nil
 //@   modifies *
